@@ -79,6 +79,7 @@ type sim struct {
 	policyChecked      int
 	pending            int // records the running operation writes
 	flipInPayload      bool
+	forcePost          bool
 }
 
 func ino(path string) uint64 {
@@ -464,7 +465,7 @@ func run(c *core.RunCtx) {
 func (s *sim) doOp() {
 	t, c := s.t, s.c
 	file := s.tailIno()
-	switch k := t.Weighted([]int{50, 10, 10, 8, 5, 5, 6, 6}); k {
+	switch k := t.Weighted([]int{50, 10, 10, 8, 12, 5, 6, 6}); k {
 	case 0, 1: // Save entries (1: overwrite a suffix first)
 		if k == 1 && s.last > s.commit {
 			back := uint64(1 + t.Choose(int(s.last-s.commit)))
